@@ -115,7 +115,7 @@ def in_word(v):
 
 
 def bounds(tier):
-    return {"kinds": KINDS, "max_len": 3 if tier == "quick" else 5, "index_window": "[-len-3, len+3]",
+    return {"kinds": KINDS, "max_len": 3 if tier == "tiny" else 5, "index_window": "[-len-3, len+3]",
             "extreme_indices": [str(b) for b in BIGS], "non_integer_indices": NONINT}
 
 
@@ -124,7 +124,7 @@ def ls(v):
 
 
 def cases(tier, shard, nshards):
-    maxn = 3 if tier == "quick" else 5
+    maxn = 3 if tier == "tiny" else 5
     cnt = 0
     for kind in KINDS:
         for n in range(0, maxn + 1):
